@@ -25,6 +25,7 @@ D = {
  'D18': "D18: the MIP-03 rollback is carried out before the competing candidate is validated: any wrapper that parses as a commit for an already passed epoch and sorts before the applied commit (a captured commit re-wrapped with an older created_at, or a corrupted copy under a smaller id) makes the client roll back; when the candidate then fails the client stays on the earlier epoch with the real commit marked EpochInvalidated",
  'D8': "D8: after a restart the snapshot queue rebuilt from storage has lost the applied commits' timestamps (applied_commit_ts = 0), is_better_candidate answers false, and a commit race can no longer be resolved by rollback: the restarted client refuses the better commit that the never-restarted one applies",
  'D11': "D11: an invitation that was already accepted (or one of its sibling rumors carrying the same MLS Welcome) is processed again when it arrives under another wrapper id: process_welcome upserts the group row, so an Active or evicted (Inactive) group is reset to Pending and can be re-activated at its join epoch by accept_welcome",
+ 'D9': "D9: an API call on SQLite is a sequence of separately committed statements (only snapshot, restore and relay replacement are transactions), and OpenMLS persists the advanced decryption ratchet / deletes the consumed key package before MDK has recorded any effect; a process death in between leaves the event consumed but not applied (offering it again is refused, the message is lost or the member is stuck behind the commit / the invitation can never be accepted) or leaves the MLS state ahead of the group record",
  'D14': "D14: a Nostr-group-id rotation applied on a losing branch makes the winning commit (tagged with the id in force when it was created) unroutable: GroupNotFound, recorded Failed, member stays on the losing branch",
 }
 def label(s):
@@ -44,6 +45,9 @@ def label(s):
         return 'D6' if 'recipient=pending' in s else 'D16'
     if s.startswith('C16|later-events-processed-differently-after-invitation|'): return 'D6'
     if s.startswith('C06|refused-event-changed-state|') and '|next-epoch|' in s and s.endswith('|mls+record') and ('|commit|' in s or '|proposal|' in s): return 'D18'
+    if s.startswith('C12|recovery-differs|'):
+        if re.search(r'\|again:(Unprocessable|Err\(\w+\))-instead-of-(ApplicationMessage|Commit|Proposal|PendingProposal|Ok)\|', s): return 'D9'
+        if re.search(r'\|merge_pending_commit\[own[^\]]*\]@', s) and '|reopened:between(' in s and '|again:same-result|' in s: return 'D9'
     if s.startswith('C11|'):
         if 'never-restarted=Commit|restarted=Unprocessable|restart-after-competitor-applied' in s: return 'D8'
         if s.startswith('C11|obs-differs|deliver(commit.') and s.endswith('|restart-after-competitor-applied'): return 'D8'
